@@ -41,6 +41,113 @@ fn refs(e: &Value) -> Vec<u64> {
     }
     out
 }
+/// Copy of an entry (either form) with every type reference blanked: what must be *identical*
+/// between a portable definition and the compile-time definition it is the image of.
+fn blank(e: &Value) -> Value {
+    let mut e = e.clone();
+    let o = e.as_object_mut().unwrap();
+    o.remove("id");
+    for p in o.get_mut("params").unwrap().as_array_mut().unwrap() {
+        let t = p["ty"].as_array_mut().unwrap();
+        if !t.is_empty() {
+            t[0] = json!(0);
+        }
+    }
+    let d = o.get_mut("def").unwrap();
+    let bf = |fs: &mut Value| {
+        for f in fs.as_array_mut().unwrap() {
+            f["ty"] = json!(0);
+        }
+    };
+    match d["tag"].as_str().unwrap().to_string().as_str() {
+        "composite" => bf(&mut d["fields"]),
+        "variant" => {
+            for v in d["variants"].as_array_mut().unwrap() {
+                bf(&mut v["fields"])
+            }
+        }
+        "sequence" | "array" | "compact" => d["ty"] = json!(0),
+        "tuple" => {
+            for x in d["tys"].as_array_mut().unwrap() {
+                *x = json!(0)
+            }
+        }
+        "bitsequence" => {
+            d["store"] = json!(0);
+            d["order"] = json!(0)
+        }
+        _ => {}
+    }
+    e
+}
+/// References of a compile-time entry as identities (spelling -> node, phantom -> last identity).
+fn info_refs(e: &Value, phantom: usize) -> Vec<usize> {
+    let sp = |v: &Value| if v["w"].as_u64() == Some(uni::PHANTOM_W) { phantom } else { v["t"].as_u64().unwrap() as usize };
+    let mut out = vec![];
+    for p in e["params"].as_array().unwrap() {
+        if let Some(t) = p["ty"].as_array().unwrap().first() {
+            out.push(sp(t));
+        }
+    }
+    let d = &e["def"];
+    let mut fr = |fs: &Value, out: &mut Vec<usize>| {
+        for f in fs.as_array().unwrap() {
+            out.push(sp(&f["ty"]));
+        }
+    };
+    match d["tag"].as_str().unwrap() {
+        "composite" => fr(&d["fields"], &mut out),
+        "variant" => {
+            for v in d["variants"].as_array().unwrap() {
+                fr(&v["fields"], &mut out)
+            }
+        }
+        "sequence" | "array" | "compact" => out.push(sp(&d["ty"])),
+        "tuple" => out.extend(d["tys"].as_array().unwrap().iter().map(sp)),
+        "bitsequence" => {
+            out.push(sp(&d["store"]));
+            out.push(sp(&d["order"]))
+        }
+        _ => {}
+    }
+    out
+}
+/// C02's statement, relationally: starting from (returned id, identity) pairs, the entry an id
+/// resolves to is identical to that identity's own type_info() up to references, and each reference
+/// in turn resolves to the referenced type's definition.
+fn image_ok(info: &Value, snap: &Value, roots: &[(u64, usize)]) -> Result<(), String> {
+    let infos = info.as_array().unwrap();
+    let entries = snap.as_array().unwrap();
+    let mut seen = std::collections::BTreeSet::new();
+    let mut work: Vec<(u64, usize)> = roots.to_vec();
+    while let Some((id, t)) = work.pop() {
+        if !seen.insert((id, t)) {
+            continue;
+        }
+        let Some(e) = entries.get(id as usize) else { return Err(format!("id {id} does not resolve")) };
+        if blank(e) != blank(&infos[t]) {
+            return Err(format!("id {id} resolves to {} but type_info() of identity {t} is {}", blank(e), blank(&infos[t])));
+        }
+        let (a, b) = (refs(e), info_refs(&infos[t], infos.len() - 1));
+        if a.len() != b.len() {
+            return Err(format!("id {id}: {} references, type_info() has {}", a.len(), b.len()));
+        }
+        work.extend(a.into_iter().zip(b));
+    }
+    Ok(())
+}
+fn sp_ident(v: &Value, phantom: usize) -> usize {
+    if v["w"].as_u64() == Some(uni::PHANTOM_W) { phantom } else { v["t"].as_u64().unwrap() as usize }
+}
+/// (returned id, identity) pairs of one history step
+fn step_roots(h: &Value, ret: &Value, phantom: usize) -> Vec<(u64, usize)> {
+    match h[0].as_str().unwrap() {
+        "one" => vec![(ret[1].as_u64().unwrap(), sp_ident(&h[1], phantom))],
+        "many" => h[1].as_array().unwrap().iter().zip(ret[1].as_array().unwrap()).map(|(s, r)| (r.as_u64().unwrap(), sp_ident(s, phantom))).collect(),
+        _ => h[1].as_array().unwrap().iter().zip(ret[1].as_array().unwrap()).map(|(f, r)| (r["ty"].as_u64().unwrap(), sp_ident(&f["ty"], phantom))).collect(),
+    }
+}
+
 fn well_formed(snap: &Value) -> bool {
     let a = snap.as_array().unwrap();
     a.iter().enumerate().all(|(i, e)| e["id"].as_u64() == Some(i as u64) && refs(e).iter().all(|r| (*r as usize) < a.len()))
@@ -109,12 +216,14 @@ fn replay(cases: &str, outp: &str) {
                         mism.push(("c01", format!("resolve({i}) is not the entry labelled {i}")));
                     }
                 }
-                // C02: equals the specification's image of type_info()
-                if json!(r.rets) != c["rets"] {
-                    mism.push(("c02", format!("returned ids {} expected {}", json!(r.rets), c["rets"])));
+                // C02: every returned id resolves, in the final registry, to the image of type_info()
+                let roots: Vec<(u64, usize)> = hist.iter().zip(r.rets.iter()).flat_map(|(h, x)| step_roots(h, x, nn - 1)).collect();
+                if let Err(m) = image_ok(&c["info"], &fin, &roots) {
+                    mism.push(("c02", m));
                 }
-                if fin != c["types"] {
-                    mism.push(("c02", "final registry differs from the specification's".into()));
+                // refinement of the deterministic model (reported, attributed by the relational acceptors)
+                if json!(r.rets) != c["rets"] || fin != c["types"] {
+                    mism.push(("model", format!("state differs from the model's: ids {} expected {}", json!(r.rets), c["rets"])));
                 }
                 // C05: evaluation counts, hit is a no-op
                 let mut cnt = vec![0u64; nn];
